@@ -88,7 +88,9 @@ class _Collector(ast.NodeVisitor):
 
 MUTATIONS = ["swap-operands", "star-wrap", "drop-arg", "dup-arg", "const-change", "name-change", "into-finally",
              "negate", "subscript", "attr", "call-it", "await", "delete-stmt", "dup-stmt", "walrus", "fstring",
-             "compare-chain", "keyword-arg", "starstar", "ann-assign", "listcomp", "lambda", "yield"]
+             "compare-chain", "keyword-arg", "starstar", "ann-assign", "listcomp", "lambda", "yield",
+             "fstring-spec", "fstring-nested-spec", "percent-format", "dot-format", "augassign", "slice", "dict-spread",
+             "unpack-assign", "del-target", "global-stmt", "async-for", "with-item", "match-stmt", "raise-from"]
 
 
 def mutate(src, choices):
@@ -132,7 +134,10 @@ def applicable(n, name):
         return isinstance(n, ast.Name) and isinstance(n.ctx, ast.Load)
     if name in ("into-finally", "delete-stmt", "dup-stmt"):
         return isinstance(n, (ast.Expr, ast.Assign, ast.Return, ast.AugAssign, ast.If))
-    if name in ("negate", "subscript", "attr", "call-it", "await", "walrus", "fstring", "compare-chain", "listcomp", "lambda", "yield"):
+    if name in ("augassign", "unpack-assign", "del-target", "global-stmt", "async-for", "with-item", "match-stmt", "raise-from"):
+        return isinstance(n, (ast.Expr, ast.Assign, ast.Return))
+    if name in ("negate", "subscript", "attr", "call-it", "await", "walrus", "fstring", "compare-chain", "listcomp", "lambda", "yield",
+                "fstring-spec", "fstring-nested-spec", "percent-format", "dot-format", "slice", "dict-spread"):
         return isinstance(n, ast.expr) and isinstance(getattr(n, "ctx", ast.Load()), ast.Load) and not isinstance(
             n, (ast.Starred, ast.JoinedStr, ast.FormattedValue, ast.Slice))
     if name == "ann-assign":
@@ -192,6 +197,42 @@ def apply_one(n, name):
         return ast.NamedExpr(target=ast.Name("w_zz", ast.Store()), value=c(n))
     if name == "fstring":
         return ast.JoinedStr(values=[ast.Constant("a"), ast.FormattedValue(value=c(n), conversion=-1, format_spec=None)])
+    if name == "fstring-spec":
+        spec = ast.JoinedStr(values=[ast.Constant(">10")])
+        return ast.JoinedStr(values=[ast.FormattedValue(value=c(n), conversion=-1, format_spec=spec)])
+    if name == "fstring-nested-spec":
+        spec = ast.JoinedStr(values=[ast.FormattedValue(value=ast.Constant(8), conversion=-1, format_spec=None), ast.Constant(".2f")])
+        return ast.JoinedStr(values=[ast.Constant("v="), ast.FormattedValue(value=c(n), conversion=114, format_spec=spec)])
+    if name == "percent-format":
+        return ast.BinOp(left=ast.Constant("%s and %5.2f %(k)s"), op=ast.Mod(), right=c(n))
+    if name == "dot-format":
+        return ast.Call(func=ast.Attribute(value=ast.Constant("{} {0} {a.b} {!z}"), attr="format", ctx=ast.Load()), args=[c(n)], keywords=[])
+    if name == "slice":
+        return ast.Subscript(value=c(n), slice=ast.Slice(lower=ast.Constant(1), upper=None, step=ast.Constant("x")), ctx=ast.Load())
+    if name == "dict-spread":
+        return ast.Dict(keys=[None, ast.Constant("k")], values=[c(n), c(n)])
+    if name == "augassign" and isinstance(n, ast.stmt):
+        return ast.AugAssign(target=ast.Name("aug_zz", ast.Store()), op=ast.Add(), value=_value_of(n))
+    if name == "unpack-assign" and isinstance(n, ast.stmt):
+        return ast.Assign(targets=[ast.Tuple([ast.Name("u1_zz", ast.Store()), ast.Starred(ast.Name("u2_zz", ast.Store()), ast.Store())], ast.Store())],
+                          value=_value_of(n))
+    if name == "del-target" and isinstance(n, ast.stmt):
+        return ast.If(test=ast.Constant(True), body=[c(n), ast.Delete(targets=[ast.Name("del_zz", ast.Del())])], orelse=[])
+    if name == "global-stmt" and isinstance(n, ast.stmt):
+        return ast.If(test=ast.Constant(True), body=[ast.Assign(targets=[ast.Name("g_zz", ast.Store())], value=_value_of(n))], orelse=[c(n)])
+    if name == "async-for" and isinstance(n, ast.stmt):
+        return ast.For(target=ast.Name("i_zz", ast.Store()), iter=_value_of(n), body=[c(n)], orelse=[ast.Pass()])
+    if name == "with-item" and isinstance(n, ast.stmt):
+        return ast.With(items=[ast.withitem(context_expr=_value_of(n), optional_vars=ast.Name("w_zz", ast.Store()))], body=[c(n)])
+    if name == "match-stmt" and isinstance(n, ast.stmt):
+        return ast.Match(subject=_value_of(n), cases=[
+            ast.match_case(pattern=ast.MatchSequence(patterns=[ast.MatchStar(name="rest_zz"), ast.MatchAs(name="last_zz")]), guard=None, body=[c(n)]),
+            ast.match_case(pattern=ast.MatchMapping(keys=[ast.Constant("k")], patterns=[ast.MatchAs(name="v_zz")], rest="rest2_zz"), guard=None, body=[ast.Pass()]),
+            ast.match_case(pattern=ast.MatchClass(cls=ast.Name("int", ast.Load()), patterns=[], kwd_attrs=["real"], kwd_patterns=[ast.MatchAs(name="r_zz")]), guard=None, body=[ast.Pass()]),
+            ast.match_case(pattern=ast.MatchAs(), guard=None, body=[ast.Pass()])])
+    if name == "raise-from" and isinstance(n, ast.stmt):
+        return ast.Try(body=[c(n)], handlers=[ast.ExceptHandler(type=ast.Tuple([ast.Name("ValueError", ast.Load()), _value_of(n)], ast.Load()), name="e_zz",
+                       body=[ast.Raise(exc=ast.Call(ast.Name("KeyError", ast.Load()), [], []), cause=ast.Name("e_zz", ast.Load()))])], orelse=[], finalbody=[])
     if name == "compare-chain":
         return ast.Compare(left=c(n), ops=[ast.Lt(), ast.In()], comparators=[ast.Constant(1), ast.Tuple([ast.Constant(1)], ast.Load())])
     if name == "listcomp":
@@ -205,6 +246,12 @@ def apply_one(n, name):
         return ast.AnnAssign(target=c(n.targets[0]), annotation=ast.Subscript(
             value=ast.Name("list", ast.Load()), slice=ast.Constant("int"), ctx=ast.Load()), value=c(n.value), simple=1)
     return None
+
+
+def _value_of(stmt):
+    """An expression taken from a statement (its value, or a constant)."""
+    v = getattr(stmt, "value", None)
+    return copy.deepcopy(v) if isinstance(v, ast.expr) else ast.Constant(0)
 
 
 def replace(tree, old, new):
